@@ -11,7 +11,7 @@ RULE = ('(1) Utility::SDBM and String::operator< on raw byte strings: empty, ASC
         '(3) random sequences of up to 60 events (one-sided connect/disconnect, restart without run, SendNotifications, notification-component timer with '
         'enable_ha on/off, clock steps across the window boundary at -1/0/+1 s) over zones with no/one/two members, every relative order of endpoint names '
         '(ASCII, UTF-8, prefix pairs), objects of every run-once type plus run-everywhere and inactive ones, names ASCII/UTF-8/long. '
-        'non-trivial = at least one authority run and two events, or at least ten hash/order comparisons; distinct = distinct script text')
+        '(4) real threads: n in 2..8 threads released together by a barrier call the real UpdateObjectAuthority() (and, mixed, SetAuthority(false)) on a registered object with counted, randomly delayed Resume()/Pause(), 150 rounds per case (1500 thorough); the observed call sequences must alternate and agree with the final flag (judged by the extracted auc_round_ok, not compared with the model). non-trivial = at least one authority run and two events, or at least ten hash/order comparisons; distinct = distinct script text')
 TRUSTED = ['model: coq/Auth/AuModel.v (transcription of Utility::SDBM, ApiListener::UpdateObjectAuthority, ConfigObject::SetAuthority and of the paused-guards of '
            'Checkable::SendNotifications, NotificationComponent::NotificationTimerHandler, CheckerComponent::ObjectHandler)',
            'source facts re-extracted each run (coq/Facts/Facts_c10.v): length and strictness of the cold-start window (parameters of the model, the theorems hold for all values); '
@@ -21,7 +21,7 @@ TRUSTED = ['model: coq/Auth/AuModel.v (transcription of Utility::SDBM, ApiListen
            'ApiListener is constructed without OnConfigLoaded (no PKI) and its local endpoint is set by the harness; the peer is marked connected by a real, never started '
            'JsonRpcConnection registered through Endpoint::AddClient',
            'char is signed on this platform (parameter au_p_signed = true, confirmed by the SDBM comparison on bytes >= 0x80); hook H1 (virtual clock)']
-ASSUMPTIONS = ['timestamps are whole seconds', 'both nodes run the same binary on platforms with the same signedness of char',
+ASSUMPTIONS = ['timestamps are whole seconds', 'concurrent model: loads/stores of paused are atomic (std::atomic<bool>), ObjectLock is mutual exclusion, Resume()/Pause() and the store to paused are separate steps in source order', 'both nodes run the same binary on platforms with the same signedness of char',
                'endpoint names of a zone are pairwise different (enforced by the config compiler)',
                'run-everywhere objects are produced by SetHAMode after activation (no feature with HARunEverywhere is linked into the harness)']
 TIMEOUT = 900
@@ -193,10 +193,25 @@ def gen_random(rnd, z, W, maxlen):
     return {'lines': lines, 'tags': {'family': 'random-%s' % lay}}
 
 
+def gen_concurrent(rnd, tier):
+    """real threads: n threads released together call the real UpdateObjectAuthority()/SetAuthority on a counted object"""
+    rounds = {'quick': 150, 'thorough': 1500, 'search': 300}.get(tier, 150)
+    cases = []
+    for n, p0, mix in ((4, 1, 0), (8, 1, 0), (2, 1, 0), (4, 0, 1), (8, 1, 1), (3, 1, 1), (6, 0, 0)):
+        lines = ['now %d' % T0, 'au_conc n=%d rounds=%d p0=%d mix=%d delay=%d seed=%d' % (n, rounds, p0, mix, rnd.choice((0, 50, 150)), rnd.randint(1, 10 ** 6))]
+        cases.append({'lines': lines, 'tags': {'family': 'concurrent-real-threads'}})
+    return cases
+
+
+def canon(lines):
+    """the observed call sequences depend on the thread schedule: they are judged by the oracle, not compared"""
+    return [re.sub(r' seqs=\S*', '', l) if l.startswith('cc ') else l for l in lines]
+
+
 def generate(seed, tier):
     rnd = random.Random(seed)
     W = window()
-    cases = []
+    cases = gen_concurrent(rnd, tier)
     nh = {'quick': 30, 'thorough': 400, 'search': 60}.get(tier, 30)
     for _ in range(nh):
         cases.append(gen_hash(rnd, 60))
@@ -215,6 +230,8 @@ def nontrivial(case, impl_lines):
     ev = [l for l in ls if l.startswith('au_') and not l.startswith(('au_cfg', 'au_obj', 'au_begin', 'au_sdbm', 'au_lt'))]
     if any(l.startswith('au_timer') for l in ls) and len(ev) >= 2:
         return True
+    if any(l.startswith('au_conc') for l in ls):
+        return True
     return sum(1 for l in ls if l.startswith(('au_sdbm', 'au_lt'))) >= 10
 
 
@@ -232,12 +249,12 @@ def classify(case, detail, impl_lines):
 
 
 def keep_line(l):
-    return l.startswith(('au_cfg', 'au_obj', 'au_begin'))
+    return l.startswith(('au_cfg', 'au_obj', 'au_begin', 'au_conc'))
 
 
 def extra_stats(cases, impl):
     st = {'timer_runs': 0, 'timer_runs_cold_or_unchanged': 0, 'pause_calls': 0, 'resume_calls': 0, 'sdbm_compared': 0, 'name_order_compared': 0,
-          'notifications_sent': 0, 'notify_ops': 0, 'both_connected_timer_runs': 0, 'objects_observed': 0, 'hash_high_byte_names': 0}
+          'notifications_sent': 0, 'notify_ops': 0, 'concurrent_rounds': 0, 'concurrent_distinct_call_sequences': 0, 'concurrent_sequences_with_2plus_calls': 0, 'both_connected_timer_runs': 0, 'objects_observed': 0, 'hash_high_byte_names': 0}
     for c in cases:
         conn = {'A': False, 'B': False}
         for l in impl.get(c['id'], []):
@@ -267,6 +284,12 @@ def extra_stats(cases, impl):
                 st['notify_ops'] += 1
                 kv = dict(t.split('=', 1) for t in p[2:] if '=' in t)
                 st['notifications_sent'] += sum(int(d) for d in kv.get('sent', '') if d.isdigit())
+            elif p[0] == 'cc':
+                kv = dict(t.split('=', 1) for t in p[1:] if '=' in t)
+                st['concurrent_rounds'] += int(kv.get('rounds', 0))
+                sq = [x for x in kv.get('seqs', '').split(',') if x]
+                st['concurrent_distinct_call_sequences'] += len(sq)
+                st['concurrent_sequences_with_2plus_calls'] += sum(1 for x in sq if len(x.split(':')[1]) >= 2)
             elif p[0] == 'objs':
                 st['objects_observed'] += len(p) - 1
         for l in c['lines']:
